@@ -79,6 +79,7 @@ func runOne(t *testing.T, c *mc.Chooser) (out mc.Outcome) {
 		mk := func(name string, addr any, h bubble.Hello) *conn {
 			var cl *bubble.Client
 			_ = addr
+			h.Rand = bubble.FixedRand{}      // every ClientHello carries the same client random: nothing chosen by the client identifies a connection
 			cl = st.Connect(name, shared, h) // every client reports the same peer address (e.g. behind one NAT)
 			return &conn{cl: cl, h2: &h2fpref.State{}, paths: map[string]*h2fpref.State{}}
 		}
